@@ -128,17 +128,37 @@ def _ulimit():
 def build(gate=True, prop=None):
     t = time.time()
     args = ["--gate"] if gate else []
+    if prop:
+        args = ["--check", prop]        # this property's theorems and every driver must build
     if os.environ.get("VERIF_DEV") == "1" and prop:
-        args = ["--for", prop]          # development only: tolerate unrelated files that do not build yet
+        args = ["--for", prop]          # development only: include the work-in-progress files
     p = subprocess.run([os.path.join(VERIF, "tools/build.sh")] + args,
                        capture_output=True, text=True, timeout=3600)
+    build.runner_ok = p.returncode in (0, 1) and "RUNNER OK" in p.stdout or p.returncode == 0
     return p.returncode == 0, p.stdout + p.stderr, time.time() - t
 
 
 ALLOWED_AXIOMS = set()   # every property theorem must be "Closed under the global context"
 
+# auxiliary theorem files a property's check also re-checks (tie of the model to things outside it)
+AUX_PROPS = {
+    "C01": ["Heapq"],                    # CPython's heapq refines the abstract queue
+    "C02": ["Translated"], "C07": ["Translated"], "C12": ["Translated"], "C14": ["Translated"],   # tools/translate.py
+}
+
 
 def proof_status(prop):
+    st = proof_status_one(prop)
+    for aux in AUX_PROPS.get(prop, []):
+        a = proof_status_one(aux)
+        st["obligations"] += a["obligations"]; st["discharged"] += a["discharged"]
+        st["theorems"] += ["%s.%s" % (aux, t) for t in a["theorems"]]
+        st["axioms"].update({"%s.%s" % (aux, k): v for k, v in a["axioms"].items()})
+        st["errors"] += ["%s: %s" % (aux, e) for e in a["errors"]]
+    return st
+
+
+def proof_status_one(prop):
     """Re-check props/<prop>.v with coqc (it only contains `exact lemma` proofs), parse Print Assumptions."""
     src = os.path.join(VERIF, "coq/theories/props", prop + ".v")
     st = dict(obligations=0, discharged=0, theorems=[], axioms={}, errors=[])
@@ -203,8 +223,10 @@ TRUSTED_BASE = [
     "extraction: Require Extraction + ExtrOcamlBasic only (no Extract Constant, nat/N/Z/positive stay inductive), OCaml 4.13.1 ocamlopt",
     "ocaml/glue.ml (s-expression tokenizer/printer, int<->Z conversion)",
     "harness/*.py, checks/*.py (case generation, trace recording, comparison)",
+    "tools/translate.py (fail-closed Python-AST -> Gallina translator for the answer table of InputManager._process_input, KeyPattern, prompt keys, signal priorities; its output is proved equal to the hand-written model in props/Translated.v on every build)",
+    "extraction is cross-checked on every run: a few cases per driver are also evaluated inside Coq with vm_compute and compared with the OCaml runner's answers",
     "hand-written Gallina model tied to /repo by the correspondence run of this check",
-    "CPython semantics of the constructs the model mirrors (int(), str.format, list slicing, textwrap chunking, heapq/queue.PriorityQueue, threading) are modelled, not verified",
+    "CPython semantics of the constructs the model mirrors (int(), str.format, list slicing, textwrap chunking regex, queue.PriorityQueue locking, threading) are modelled, not verified; CPython's heapq is modelled line by line and PROVED to refine the abstract queue (props/Heapq.v), validated against the real heapq on every C01 run",
 ]
 
 
@@ -305,9 +327,10 @@ def standard_proof_gate(chk):
     ok, log, dt = build(gate=True, prop=chk.prop)
     if not ok:
         chk.proof = dict(obligations=1, discharged=0, theorems=[], axioms={}, errors=["build failed"])
-        chk.violation("build-failed", "the Coq development / extraction no longer builds: " + log[-600:],
+        chk.violation("build-failed", "a proof obligation of %s (or the development) no longer checks: %s" % (chk.prop, log[-600:]),
                       dict(kind="build", log=log[-3000:]), found=False)
-        return False
+        # the model runner is still there: go on and search for a concrete failing input with the correspondence
+        return bool(getattr(build, "runner_ok", False))
     st = proof_status(chk.prop)
     chk.proof = st
     if st["errors"]:
